@@ -53,6 +53,16 @@ func lenFactOf(info *types.Info, a core.Guard) (string, int64, bool) {
 	if !ok {
 		return "", 0, false
 	}
+	// s != "" (or s == "" on the false edge) ⇒ len(s) ≥ 1
+	if be.Op == token.NEQ || be.Op == token.EQL {
+		for _, pr := range [][2]ast.Expr{{be.X, be.Y}, {be.Y, be.X}} {
+			if tv, ok := info.Types[pr[1]]; ok && tv.Value != nil && tv.Value.Kind() == constant.String && constant.StringVal(tv.Value) == "" {
+				if (be.Op == token.NEQ) == a.True {
+					return exprStr(pr[0]), 1, true
+				}
+			}
+		}
+	}
 	lenArg := func(e ast.Expr) (string, bool) {
 		call, ok := ast.Unparen(e).(*ast.CallExpr)
 		if !ok || len(call.Args) != 1 {
@@ -364,6 +374,50 @@ func boundsSites(p *core.Prog, fis []*core.FuncInfo, strIdxOK map[token.Pos]bool
 			for _, f := range facts {
 				if f.x == x && f.min >= min {
 					return true, fmt.Sprintf("dominating test establishes len(%s) ≥ %d", x, f.min)
+				}
+			}
+			// len(x) != c on the path raises a known bound len(x) ≥ c to c+1 (if len == 0 {return}; if len == 1 {return})
+			{
+				best := int64(0)
+				for _, f := range facts {
+					if f.x == x && f.min > best {
+						best = f.min
+					}
+				}
+				changed := true
+				for changed {
+					changed = false
+					for _, a := range atoms {
+						be, ok := ast.Unparen(a.Cond).(*ast.BinaryExpr)
+						if !ok {
+							continue
+						}
+						ne := (be.Op == token.NEQ && a.True) || (be.Op == token.EQL && !a.True)
+						if !ne {
+							continue
+						}
+						if lx, c0, ok := lenMinus(info, be.X); ok && lx == x && c0 == 0 {
+							if cv, ok := intConst(info, be.Y); ok && cv == best && !modifiedOnPath(fi, flowOf(n), a.Cond, n, varsInText(fi, a.Cond), []string{x}) {
+								best++
+								changed = true
+							}
+						}
+					}
+				}
+				if best >= min {
+					return true, fmt.Sprintf("dominating tests exclude every length below %d", best)
+				}
+			}
+			// strings.Split / SplitN results are never empty
+			if min == 1 {
+				if id, ok := n.(*ast.IndexExpr); ok {
+					if o := core.ObjOf(info, id.X); o != nil {
+						if d := singleDef(fi, o); d != nil {
+							if call, ok := ast.Unparen(d.Rhs).(*ast.CallExpr); ok && core.IsCallTo(info, call, "strings.Split", "strings.SplitN", "strings.SplitAfter") {
+								return true, "result of strings.Split (at least one element)"
+							}
+						}
+					}
 				}
 			}
 			// X.F where X := callee() whose deferred closure nils out results with an empty F, and X != nil dominates
